@@ -30,6 +30,8 @@ CANON = [
     (lambda o, cfg: o["outcome"] == "abort" and "overflowed its stack" in (o.get("stderr") or "") and cfg in ("cycles", "walk", "c16"),
      "C08:mutually-recursive-client-fields-stack-overflow"),
     (lambda o, cfg: "attempt to add with overflow" in (o.get("panic_msg") or ""), "C08:variable-of-recursive-input-object-type-panics"),
+    (lambda o, cfg: "Parent context has missing variable" in (o.get("panic_msg") or ""),
+     "C08:variable-passed-to-client-field-inside-refinement-panics"),
     (lambda o, cfg: "Deserializing objects not yet supported" in (o.get("panic_msg") or ""), "C08:object-literal-as-directive-argument-panics"),
     (lambda o, cfg: "not yet implemented: Variable" in (o.get("panic_msg") or ""), "C08:variable-as-directive-argument-panics"),
     (lambda o, cfg: "Expected to find a variable defined at the root with name" in (o.get("panic_msg") or ""),
